@@ -8,7 +8,7 @@ def run(tier):
     ck.rule = ("enums with 1-7 variants (unit / tuple / named, random order) mapped to a counterpart enum: variant rename (map / from+into / map_owned+map_ref), type hints switching "
                "forms (as () / {} / Unit), payload designations (same, rename, ~ expressions with different owned / by-ref constants, ghost payload fields with defaults, "
                "variant-level #[ghosts] for counterpart-only payload fields), S-only #[ghost] variants (value / panic / Err / no default + `_ =>`), counterpart-only variants via "
-               "enum-level #[ghosts] (member and destructuring forms, bare #[ghosts] + default case); every variant of both sides x draws x From/Into owned/by-ref, fallible twin. "
+               "enum-level #[ghosts] (member and destructuring forms, bare #[ghosts] + default case); From-only enums whose positional payloads are addressed by explicit permuted index with and without expressions; every variant of both sides x draws x From/Into owned/by-ref, fallible twin. "
                "distinct_nontrivial = distinct (source variant form, counterpart form, kind, fallibility, variant designation, payload designation set) in enums with >=2 variants.")
     g = xgen.G(common.rng_for("C02", tier))
     n, draws, shards = (150, 4, 4) if tier == "quick" else (3000, 12, 16)
@@ -40,7 +40,7 @@ def run(tier):
         v = next((x for x in ec.vs if (x.name if not kind.startswith("from") else x.tname) == vname and (x.ghost is None or not kind.startswith("from"))), None)
         if v is not None:
             vd = "ghost:" + v.ghost["mode"] if v.ghost else ("rename:" + v.rename_form if v.tname != v.name else "same")
-            key = [v.shape, v.tshape, kind, fal, vd, sorted({f.desig for f in v.fields}) + (["t_only"] if v.t_only else [])]
+            key = [v.shape, v.tshape, kind, fal, vd, sorted({f.desig for f in v.fields}) + (["t_only"] if v.t_only else []) + (["permuted_index"] if v.permuted else [])]
         else:
             t = next((x for x in ec.t_only if x.name == vname), None)
             key = ["counterpart_only", t.shape if t else "?", kind, fal, t.mode if t else "?", t.form if t else "?"]
